@@ -6,6 +6,7 @@
 (* Values (also the JSON exchanged with the harness):                      *)
 (*   [s |-> bytes]            string                                       *)
 (*   [n |-> digit bytes]      number (opaque decimal atom)                 *)
+(*   [b |-> 0/1]  [f |-> decimal bytes]   bool, float (opaque atom)        *)
 (*   [o |-> <<<<jkey, v>>..>>] struct / map (ordered)                      *)
 (*   [a |-> <<v..>>]          sequence                                     *)
 (*   [u |-> name bytes]       unit variant                                 *)
@@ -46,6 +47,8 @@ RECURSIVE PrimText(_, _)
 PrimText(v, T) ==
     CASE T.t = "str" -> v.s
       [] T.t = "num" -> v.n
+      [] T.t = "bool" -> IF v.b = 1 THEN <<116, 114, 117, 101>> ELSE <<102, 97, 108, 115, 101>>
+      [] T.t = "float" -> v.f
       [] T.t = "unit" -> v.u
       [] T.t = "slist" -> JoinSp([i \in 1..Len(v.a) |-> PrimText(v.a[i], T.of)])
       [] OTHER -> <<0>>
@@ -105,7 +108,7 @@ SerValue(x, T) ==
 
 \* a value as the element <name>
 SerElem(name, v, T) ==
-    CASE T.t \in {"str", "num", "unit"} -> Elem(name, <<>>, TextEv(PrimText(v, T)))
+    CASE T.t \in {"str", "num", "unit", "bool", "float"} -> Elem(name, <<>>, TextEv(PrimText(v, T)))
       [] T.t = "struct" -> Elem(name, SerAttrs(v, T, 1), SerFields(v, T, 1))
       [] T.t = "map" ->
             LET RECURSIVE M(_)
